@@ -68,8 +68,18 @@ class Deep:
 
         self.config.resource = default_resource
         self.trigger_handler.start()
-        self.grpc.start()
-        self.poll.start()
+        try:
+            self.grpc.start()
+            self.poll.start()
+        except BaseException:
+            # the agent did not start, and shutdown() only acts on a started agent: do not leave the trace hooks
+            # (or a poll timer) behind
+            self.trigger_handler.shutdown()
+            try:
+                self.poll.shutdown()
+            except Exception:
+                deep.logging.exception("Failed to stop the poll after a failed start")
+            raise
         self.started = True
 
     def shutdown(self):
